@@ -128,6 +128,9 @@ def dispatch_table(ctx, fi: FuncInfo, subject: str, extra_values=(), allow_atoms
     Atoms that are not equality tests on the subject raise AnalysisError unless listed in allow_atoms
     (then both valuations are explored and must agree)."""
     sps = symex.func_sym_paths(fi)
+    dd = _dict_dispatch(ctx, fi, subject, sps, extra_values)
+    if dd is not None:
+        return dd
     consts = []
     atom_info = {}
     for sp in sps:
@@ -137,6 +140,23 @@ def dispatch_table(ctx, fi: FuncInfo, subject: str, extra_values=(), allow_atoms
             if a in atom_info:
                 continue
             k = _subject_eq(a, subject)
+            if k is None and a.startswith(f'{subject} in '):
+                try:
+                    cn = ast.parse(a[len(f'{subject} in '):], mode='eval').body
+                    keys = None
+                    if isinstance(cn, ast.Dict):
+                        keys = [ctx.ce.eval(x, fi.module, fi.cls, {}) for x in cn.keys]
+                    else:
+                        okk, vv = ctx.ce.try_eval(cn, fi.module, fi.cls, {})
+                        keys = list(vv) if okk else None
+                    if keys is not None:
+                        atom_info[a] = ('in', tuple(keys))
+                        for kk in keys:
+                            if kk not in consts:
+                                consts.append(kk)
+                        continue
+                except Exception:
+                    pass
             if k is None and a == f'{subject} is None':
                 atom_info[a] = ('isnone', None)
                 continue
@@ -158,6 +178,7 @@ def dispatch_table(ctx, fi: FuncInfo, subject: str, extra_values=(), allow_atoms
         for bits in itertools.product([False, True], repeat=len(free)):
             val = {a: (kv[1] == c and c is not None) for a, kv in atom_info.items() if kv[0] == 'eq'}
             val.update({a: (c is None) for a, kv in atom_info.items() if kv[0] == 'isnone'})
+            val.update({a: (c in kv[1]) for a, kv in atom_info.items() if kv[0] == 'in'})
             val.update(dict(zip(free, bits)))
             taken = [sp for sp in sps if G.evaluate(sp._f, val)]
             if len(taken) != 1:
@@ -169,8 +190,90 @@ def dispatch_table(ctx, fi: FuncInfo, subject: str, extra_values=(), allow_atoms
         if any(_shape(r) != _shape(results[0]) for r in results):
             raise AnalysisError(f'{fi.loc} {fi.qualname}: result for {subject} == {c!r} depends on {free}')
         sp = results[0]
-        table[c] = (sp.end, sp.value, sp)
+        table[c] = (sp.end, _resolve_lookup(ctx, fi, sp.value, subject, c), sp)
     return table
+
+
+def _resolve_lookup(ctx, fi, value, subject, c):
+    """`{k: v, ...}[subject]` with the subject fixed to the constant c -> v"""
+    if value is None or c is Ellipsis or c is None:
+        return value
+
+    class T(ast.NodeTransformer):
+        def visit_Subscript(self, n):
+            self.generic_visit(n)
+            if isinstance(n.value, ast.Dict) and ast.unparse(n.slice) == subject:
+                for k, v in zip(n.value.keys, n.value.values):
+                    try:
+                        if k is not None and ctx.ce.eval(k, fi.module, fi.cls, {}) == c:
+                            return v
+                    except Exception:
+                        pass
+            return n
+    return T().visit(clone(value))
+
+
+def _dict_dispatch(ctx, fi, subject, sps, extra_values):
+    """The lookup-table idiom: `return TABLE.get(subject, DEFAULT)()` / `TABLE[subject]()` / without the call, where TABLE
+    is a dict display with constant keys (a module / class constant or a local)."""
+    rets = [sp for sp in sps if sp.end == 'return']
+    if len(rets) != 1 or len(sps) != 1 or rets[0].conds:
+        return None
+    sp = rets[0]
+    val = sp.value
+    called = False
+    if isinstance(val, ast.Call) and not val.args and not val.keywords and isinstance(val.func, (ast.Call, ast.Subscript)):
+        called, look = True, val.func
+    else:
+        look = val
+    default = None
+    if isinstance(look, ast.Call) and isinstance(look.func, ast.Attribute) and look.func.attr == 'get' and 1 <= len(look.args) <= 2 \
+            and ast.unparse(look.args[0]) == subject:
+        table_expr = look.func.value
+        default = look.args[1] if len(look.args) == 2 else ast.Constant(value=None)
+    elif isinstance(look, ast.Subscript) and ast.unparse(look.slice) == subject:
+        table_expr = look.value
+    else:
+        return None
+    dnode = table_expr
+    if isinstance(table_expr, (ast.Name, ast.Attribute)):
+        r = ctx.prog.resolve_expr(fi.module, table_expr, fi.cls)
+        if not (r and r[0] == 'assign'):
+            return None
+        dnode = r[1]
+    if not isinstance(dnode, ast.Dict):
+        return None
+    table = {}
+    for k, v in zip(dnode.keys, dnode.values):
+        if k is None:
+            return None
+        ok, kv = ctx.ce.try_eval(k, fi.module, fi.cls, {})
+        if not ok:
+            return None
+        if isinstance(kv, EnumMember):
+            kv = f'{kv.cls.rpartition(".")[2]}.{kv.name}'
+        if kv in table:
+            raise AnalysisError(f'{fi.loc}: duplicate key {kv!r} in the dispatch table')
+        node = ast.Call(func=v, args=[], keywords=[]) if called else v
+        table[kv] = ('return', node, sp)
+    if default is not None:
+        dn = ast.Call(func=default, args=[], keywords=[]) if called else default
+        other = ('return', dn, _Other(sp))
+    else:
+        other = ('raise', None, _Other(sp))
+    for c in list(extra_values) + [Ellipsis]:
+        if c not in table:
+            table[c] = other
+    return table
+
+
+class _Other:
+    """a distinct path object for the default entry of a lookup-table dispatch"""
+    def __init__(self, sp):
+        self.sp = sp
+        self.end = sp.end
+        self.value = sp.value
+        self.path = sp.path
 
 
 def _conj_node(sp):
